@@ -56,6 +56,7 @@ type Run struct {
 type importCtx struct {
 	prefix string
 	only   map[string]bool
+	outer  *importCtx
 }
 
 // Import evaluates f (another property's rule function) under this run, keeping only the named
@@ -66,7 +67,8 @@ func (r *Run) Import(prefix string, only []string, f func(*Run)) {
 	for _, o := range only {
 		m[o] = true
 	}
-	r.imp = &importCtx{prefix, m}
+	outer := r.imp
+	r.imp = &importCtx{prefix: prefix, only: m, outer: outer}
 	counts := r.Counts
 	r.Counts = map[string]int{}
 	f(r)
@@ -74,18 +76,18 @@ func (r *Run) Import(prefix string, only []string, f func(*Run)) {
 		counts[prefix+k] = v
 	}
 	r.Counts = counts
-	r.imp = nil
+	r.imp = outer
 }
 
-// mapRule: the rule id under the current import, ok=false when the rule is dropped.
+// mapRule: the rule id under the current (possibly nested) import, ok=false when the rule is dropped.
 func (r *Run) mapRule(id string) (string, bool) {
-	if r.imp == nil {
-		return id, true
+	for c := r.imp; c != nil; c = c.outer {
+		if !c.only[id] {
+			return "", false
+		}
+		id = c.prefix + id
 	}
-	if !r.imp.only[id] {
-		return "", false
-	}
-	return r.imp.prefix + id, true
+	return id, true
 }
 
 func NewRun(prop, tier string, P *Prog, verifDir string) *Run {
